@@ -49,6 +49,13 @@ impl<K: Eq + Hash + Clone> ArcState<K> {
         self.b2.pop_back();
       }
       return Some((key, cost));
+    } else if let Some((key, cost)) = self.t1.pop_back() {
+      // T2 is empty: fall back to T1's tail so a resident is always evictable.
+      self.b1.push_front(key.clone(), cost);
+      if self.b1.current_total_cost() > capacity {
+        self.b1.pop_back();
+      }
+      return Some((key, cost));
     }
     None
   }
